@@ -185,6 +185,26 @@ def runResourceFb (c : Nat) (r : Res) (alive : Bool) (evs : List String) (acc : 
       let r'' := if delivered && r'.dep != c then rstep r' (.write c) else r'
       runResourceFb c r'' alive es (acc ++ [showRes r'' alive])
 
+/-- `resourceself`: the fetch future itself moves the dependency on to `c` (once it differs) as its last step: the completion of
+the latest fetch is then a dependency change — that fetch is superseded while it is finishing and delivers nothing -/
+def runResourceSelf (c : Nat) (r : Res) (alive : Bool) (evs : List String) (acc : List String) : List String :=
+  match evs with
+  | [] => acc
+  | e :: es =>
+    if e == "x" then runResourceSelf c r false es (acc ++ [showRes r false]) else
+    if e == "u" || e == "y" then runResourceSelf c r alive es (acc ++ [showRes r alive]) else
+    let ev : Option REv :=
+      if e.startsWith "w" then (e.drop 1).toString.toNat?.map .write
+      else if e.startsWith "f" then (e.drop 1).toString.toNat?.map .finish else none
+    match ev with
+    | none => acc ++ ["bad-op"]
+    | some ev =>
+      let r' := if !alive then r else
+        match ev with
+        | .finish k => if k = r.started && !r.completedLatest && r.dep != c then rstep r (.write c) else rstep r ev
+        | .write _ => rstep r ev
+      runResourceSelf c r' alive es (acc ++ [showRes r' alive])
+
 def showResR (s : ResR) : String :=
   showRes s.res s.alive ++ " B=[" ++ ",".intercalate (s.readers.map fun r => if r.guard then "1" else "0") ++ "]"
 
@@ -320,6 +340,10 @@ def handle (line : String) : String :=
         else e
       " | ".intercalate (runResource (Res.init d) true evl [showRes (Res.init d) true])
     | none => "bad-op"
+  | "resourceself" :: d :: c :: evs :: [] =>
+    match d.toNat?, c.toNat? with
+    | some d, some c => " | ".intercalate (runResourceSelf c (Res.init d) true (if evs == "-" then [] else evs.splitOn ",") [showRes (Res.init d) true])
+    | _, _ => "bad-op"
   | "resourcefb" :: d :: c :: evs :: [] =>
     match d.toNat?, c.toNat? with
     | some d, some c =>
